@@ -140,6 +140,15 @@ def post_inv(call):
         ctx.violation('not-inverse-of-length/' + name, 'length(0, ilength(s)) differs from s',
                       {'s': s, 't': t, 'length(0,t)': own, 'L': L, 'curve': gen.seg_spec(curve)})
         return True
+    # the same for the partial length: what the library's length(0,t) is observed to be off the bracket by (up to C06's
+    # 1e-6; beyond that C06 judges it) is length()'s error, not the inverse's - seen: 2.6e-9 relative on a cubic of size 2e4
+    e_t = max(0.0, lower - own, own - upper)
+    if e_t > 1e-6 * L:
+        ctx.skip('library length(0,t) outside the C06 tolerance (judged there)')
+        return True
+    if e_t > 0:
+        ctx.note('library_partial_length_off_the_bracket')
+    tol += e_t
     if not (lower - tol <= s <= upper + tol):
         ctx.violation('not-inverse/' + name, 'reference arc length from 0 to ilength(s) differs from s',
                       {'s': s, 't': t, 'ref_lower': lower, 'ref_upper': upper, 'L': L, 'tol': tol,
